@@ -1,5 +1,6 @@
 import Mochi.Model.Broker
 import Mochi.Lemmas.Alias
+import Mochi.Lemmas.BrokerAlias
 /-!
 # C24 — Topic aliases are always resolvable by the receiver
 
@@ -426,3 +427,155 @@ example : (((In.new 10).after [(5, [97]), (5, []), (5, [98]), (7, [99])]).set 5 
 example : (((In.new 10).after [(5, [97])]).set 6 []).2 = [] := by decide
 
 end Mochi.Alias
+
+/-! ## The receiver's view over histories (`Mochi/Lemmas/BrokerAlias.lean`, namespace `A24`)
+
+`A24.seenBindings outs conn` is what the peer of `conn` has learnt from the PUBLISH packets written to it,
+`A24.Resolvable view m` says a written PUBLISH names its topic or carries an alias bound in the view,
+`A24.AliasSync s outs` says the outbound alias table of every live aliased client is contained in its peer's view.
+`AliasSync` is FALSE in general — the two excluded classes first, each with a history by `decide`. -/
+namespace Mochi.Broker
+open Mochi.Topics A24
+
+/-- F24a: subscriber on connection 1 (Topic Alias Maximum 5, Receive Maximum 1) -/
+def A24.demoF24a : List Op :=
+  [.connect 1 { ver := 5, id := [115], tam := some 5, rm := some 1 },
+   .recv 1 (.subscribe 1 0 [{ filter := [116, 49], qos := 1 }, { filter := [116, 50], qos := 1 }]),
+   .connect 2 { ver := 5, id := [112] },
+   .recv 2 (.publish 1 false false 1 [116, 49] [97] 0 none),
+   .recv 2 (.publish 1 false false 2 [116, 50] [98] 0 none),
+   .recv 2 (.publish 0 false false 0 [116, 50] [99] 0 none),
+   .recv 1 (.puback 1 0)]
+
+set_option maxRecDepth 100000 in
+/-- F24a (Go behaviour: server.go `publishToClient` — the alias is registered at lines 1084–1093
+    (`Outbound.Set(pk.TopicName)`) BEFORE the copy is deferred at lines 1121–1125 (`sentQuota == 0 …: out.Expiry = -1;
+    Inflight.Set(out); return`) or dropped at 1096–1110).  The QoS 1 message on `t2` is shaped with alias 2 + topic and
+    deferred (send quota 0); the next message on `t2` (QoS 0) is written with alias 2 and NO topic: the receiver has never
+    seen alias 2.  Nothing was dropped (`inflightDropped = 0`); the history is outside the class only because the aliased
+    client has a Receive Maximum.  The binding arrives one op later, when the PUBACK releases the deferred copy. -/
+theorem C24_F24a_deferred_counterexample :
+    let ops := A24.demoF24a.take 6
+    let outs := runOuts (init {}) ops
+    OpsFresh (init {}) A24.demoF24a ∧ ¬ OpsClass (init {}) ops ∧
+    (run (init {}) ops).info.inflightDropped = 0 ∧
+    (unresolved [] outs).map (fun e => (e.1, e.2.topic, e.2.alias, e.2.payload)) = [(1, [], 2, [99])] ∧
+    seenBindings outs 1 = [(1, [116, 49])] ∧
+    (getObj (run (init {}) ops) 1).aliasOut = [([116, 49], 1), ([116, 50], 2)] ∧
+    ¬ AliasSync (run (init {}) ops) outs ∧
+    seenBindings (runOuts (init {}) A24.demoF24a) 1 = [(1, [116, 49]), (2, [116, 50])] := by
+  intro ops outs
+  refine ⟨by decide, by decide, by decide, by decide, by decide, by decide, ?_, by decide⟩
+  intro h
+  exact absurd (h 1 (by decide) (by decide) [116, 50] 2 (by decide) (by decide)) (by decide)
+
+/-- F24b: a session with one stored alias-only PUBLISH is resumed on a new connection -/
+def A24.demoF24b : List Op :=
+  [.connect 1 { ver := 5, id := [115], clean := false, sei := some 100, tam := some 5 },
+   .recv 1 (.subscribe 1 0 [{ filter := [116], qos := 1 }]),
+   .connect 2 { ver := 5, id := [112] },
+   .recv 2 (.publish 1 false false 1 [116] [97] 0 none),
+   .recv 2 (.publish 1 false false 2 [116] [98] 0 none),
+   .recv 1 (.puback 1 0),
+   .drop 1,
+   .connect 3 { ver := 5, id := [115], clean := false, sei := some 100, tam := some 5 }]
+
+set_option maxRecDepth 100000 in
+/-- F24b (Go behaviour: server.go `inheritClientSession` line 586 `cl.State.Inflight = existing.State.Inflight.Clone()`,
+    clients.go `ResendInflightMessages` lines 315–321 write the stored packets verbatim, while clients.go line 240
+    `ParseConnect` gives the new connection a FRESH outbound alias table).  The history is inside the class (nothing
+    dropped, nothing deferred, `AliasSync` keeps holding — the new table is empty) and every PUBLISH of the first seven ops
+    is resolvable; the resumed connection 3 is sent the stored packet id 2 with alias 1 and no topic, and its view is
+    empty. -/
+theorem C24_F24b_resumption_counterexample :
+    let ops := A24.demoF24b
+    let outs := runOuts (init {}) ops
+    OpsFresh (init {}) ops ∧ OpsClass (init {}) ops ∧
+    (unresolved [] (runOuts (init {}) (ops.take 7))).isEmpty = true ∧
+    (unresolved [] outs).map (fun e => (e.1, e.2.id, e.2.dup, e.2.topic, e.2.alias, e.2.payload)) =
+      [(3, 2, true, [], 1, [98])] ∧
+    seenBindings outs 1 = [(1, [116])] ∧ seenBindings outs 3 = [] ∧
+    (getObj (run (init {}) ops) 3).aliasOut = [] := by
+  intro ops outs
+  refine ⟨by decide, by decide, by decide, by decide, by decide, by decide, by decide⟩
+
+/-- inside the class: Topic Alias Maximum 2, three topics, QoS 0/1/2 -/
+def A24.demoOK : List Op :=
+  [.connect 1 { ver := 5, id := [115], tam := some 2 },
+   .recv 1 (.subscribe 1 0 [{ filter := [116, 47, 35], qos := 1 }]),
+   .connect 2 { ver := 5, id := [112] },
+   .recv 2 (.publish 1 false false 1 [116, 47, 49] [97] 0 none),
+   .recv 2 (.publish 0 false false 0 [116, 47, 49] [98] 0 none),
+   .recv 2 (.publish 1 false true 2 [116, 47, 50] [99] 0 none),
+   .recv 2 (.publish 2 false false 3 [116, 47, 51] [100] 0 none),
+   .recv 2 (.publish 0 false false 0 [116, 47, 50] [101] 0 none)]
+
+set_option maxRecDepth 100000 in
+/-- non-vacuity: the history is fresh and in the class, aliases ARE used (two alias-only packets, the third topic gets
+    no alias: the table is full), every PUBLISH is resolvable and the view equals the table -/
+theorem C24_history_demo :
+    let outs := runOuts (init {}) A24.demoOK
+    OpsFresh (init {}) A24.demoOK ∧ OpsClass (init {}) A24.demoOK ∧
+    (unresolved [] outs).isEmpty = true ∧
+    (outs.filterMap fun x => match x with
+      | .wrote n (.publish _ m _) => some (n, m.id, m.topic, m.alias) | _ => none) =
+      [(1, 1, [116, 47, 49], 1), (1, 0, [], 1), (1, 2, [116, 47, 50], 2), (1, 3, [116, 47, 51], 0), (1, 0, [], 2)] ∧
+    seenBindings outs 1 = [(1, [116, 47, 49]), (2, [116, 47, 50])] ∧
+    (getObj (run (init {}) A24.demoOK) 1).aliasOut = [([116, 47, 49], 1), ([116, 47, 50], 2)] := by
+  intro outs
+  refine ⟨by decide, by decide, by decide, by decide, by decide, by decide⟩
+
+/-- C24 at the level of one routed message (`publishToSubscribers`: every delivery of an inbound PUBLISH, a will, an
+    inline publish), PARTIAL: on the class where nothing is dropped by this routing (`info.inflightDropped` unchanged:
+    no in-flight limit hit, no packet-id exhaustion — server.go 1096–1110) and no aliased client has a Receive Maximum
+    (`Calm`: no deferral — server.go 1121–1125), for a PUBLISH with a non-empty topic, the receiver's view stays in step
+    with every live client's outbound alias table, and every PUBLISH written is resolvable in the view accumulated up to
+    and including itself.  Outside the class both fail: `C24_F24a_deferred_counterexample`. -/
+theorem C24_alias_sync_deliver_partial (s : Server) (pk : Msg) (pre : List Out)
+    (hty : pk.type = 3) (hne : pk.topic ≠ [])
+    (hcalm : ∀ k, Calm (getObj s k))
+    (hnd : (publishToSubscribers s pk).1.info.inflightDropped = s.info.inflightDropped)
+    (hs : AliasSync s pre) :
+    AliasSync (publishToSubscribers s pk).1 (pre ++ (publishToSubscribers s pk).2) ∧
+    ResOuts pre (publishToSubscribers s pk).2 ∧
+    (∀ k, Calm (getObj (publishToSubscribers s pk).1 k)) :=
+  let h := publishToSubscribers_ah s pk hty hne
+  ⟨(h.sync hnd hcalm pre hs).1, (h.sync hnd hcalm pre hs).2, h.calm hcalm⟩
+
+/-- the same for one delivery (`publishToClientCore`), where the three excluded outcomes are visible: the copy is
+    dropped (counter), deferred (excluded by `Calm`), or the client is not live (then nothing is claimed for it) -/
+theorem C24_alias_sync_core_partial (s : Server) (i : Nat) (sub : Sub) (f : Bool) (pk : Msg) (pre : List Out)
+    (hty : pk.type = 3) (hne : pk.topic ≠ [])
+    (hcalm : ∀ k, Calm (getObj s k))
+    (hnd : (publishToClientCore s i sub f pk).1.info.inflightDropped = s.info.inflightDropped)
+    (hs : AliasSync s pre) :
+    AliasSync (publishToClientCore s i sub f pk).1 (pre ++ (publishToClientCore s i sub f pk).2) ∧
+    ResOuts pre (publishToClientCore s i sub f pk).2 :=
+  (publishToClientCore_ah s i sub f pk hty hne).sync hnd hcalm pre hs
+
+/-- `AliasSync` holds initially (no client has a table) -/
+theorem C24_alias_sync_init (caps : Caps) : AliasSync (init caps) [] := by
+  intro k hl ht
+  exfalso
+  have : (getObj (init caps) k).tam = 0 := by
+    simp only [getObj, init, List.getD_eq_getElem?_getD]
+    cases k with
+    | zero => rfl
+    | succ n => rfl
+  omega
+
+/-- QoS 0 (the message or the subscription has QoS 0): the copy is written in the call that shapes it — nothing can be
+    dropped, so the drop hypothesis of `C24_alias_sync_core_partial` is not needed (the `Calm` hypothesis is still
+    carried by the relation `A24.AH`, although no QoS 0 copy is ever deferred) -/
+theorem C24_qos0_core_resolvable_partial (s : Server) (i : Nat) (sub : Sub) (f : Bool) (pk : Msg) (pre : List Out)
+    (hq : pk.qos = 0 ∨ sub.qos = 0) (hty : pk.type = 3) (hne : pk.topic ≠ [])
+    (hcalm : ∀ k, Calm (getObj s k)) (hs : AliasSync s pre) :
+    AliasSync (publishToClientCore s i sub f pk).1 (pre ++ (publishToClientCore s i sub f pk).2) ∧
+    ResOuts pre (publishToClientCore s i sub f pk).2 := by
+  have hnd : (publishToClientCore s i sub f pk).1.info.inflightDropped = s.info.inflightDropped := by
+    obtain ⟨c1, m, _, _, he⟩ := publishToClientCore_q0 s i sub f pk hq
+    rw [he]; rfl
+  exact C24_alias_sync_core_partial s i sub f pk pre hty hne hcalm hnd hs
+
+end Mochi.Broker
+
